@@ -310,7 +310,7 @@ impl Prop for C02 {
         96
     }
     fn cases(&self, t: Tier) -> usize {
-        t.pick(40_000, 1_000_000)
+        t.pick(300_000, 20_000_000)
     }
     fn rule(&self) -> String {
         "tape-decoded cases: (3/4) one layer of a chosen kind (dense incl. soft-max, convolution, deconvolution, max-pool) over the configuration lattice channels 1-3, height/width 1-8 (thorough 1-12) non-square, filters 1-3, kernel 1-3 (5), stride 1-3 (4), padding 0-2, dilation 1-2 (3), constructed so that the effective kernel fits; distinct random taps and inputs at scales 0.01/1/30 (dense also 300); each spatial layer is fed the c x h x w tensor and its flattening. (1/4) sequences of 2-5 fitting layers incl. feedback blocks without skips and flat<->spatial transitions; one in five of them is compared after a short early-stopped learn() run with dropout layers (trained weights read back through the hooks). Oracles: f64 defining operators with a forward-error bound 4(n+1)eps*sum|terms| (max-pool exact), bitwise equality of both input representations, bitwise equality of Network::forward/predict with the fold of the library's own single-layer forwards, final output vs f64 reference network (2e-4 relative to the output scale, skipped near kinks/ties). Non-trivial: spatial layer or sequence. Distinct = full specification.".into()
